@@ -157,12 +157,12 @@ PROPS = {
     "C11": {
         "title": "Documented concurrency contract: race-free, frames atomic, WriteControl bounded",
         "level": "exploration",
-        "rule": "actors: 1 writer running a rapid-generated write program (all APIs, invalid requests, optional close), 1 reader with default handlers fed 0-3 pings and an optional close, 0-3 WriteControl callers (ping/pong/close, zero or finite deadlines), Close at a generated moment. part owned-schedule (testing/synctest bubble, fake clock, -race): every transport Write blocks at a gate; a generated schedule of {start actor, grant oldest write, advance fake time 1..1100 ms, Close} owns the interleaving, so a writer can be held inside the critical section past other callers' deadlines. Oracle: never two goroutines inside transport Write; the wire decodes (independent decoder) to whole frames with control frames only between frames; the writer's messages arrive in order with exact payloads; a control frame is on the wire iff its call returned nil; a WriteControl that failed returned a timeout net.Error no later than its deadline on the fake clock (exact), wrote nothing, and the writer's later calls still succeed; a WriteControl that succeeded reached the transport no later than its deadline; nobody is stuck after all writes are granted and 20 s of fake time; nothing follows a close frame and calls started after it fail. part free-running-race: the same actors as real parallel goroutines over an ungated transport that yields inside Write; oracle = race detector report file unchanged (GORACE log_path) + the same wire oracle. Non-trivial = a call started while another write was held in the transport, or a WriteControl timed out.",
+        "rule": "actors: 1 writer running a rapid-generated write program (all APIs, invalid requests, optional close), 1 reader with default handlers fed 0-3 pings and an optional close, 0-3 WriteControl callers (ping/pong/close, zero or finite deadlines), Close at a generated moment. part owned-schedule (testing/synctest bubble, fake clock, -race): every transport Write blocks at a gate; a generated schedule of {start actor, grant oldest write, advance fake time 1..1100 ms, Close} owns the interleaving, so a writer can be held inside the critical section past other callers' deadlines. Oracle: never two goroutines inside transport Write; the wire decodes (independent decoder) to whole frames with control frames only between frames; the writer's messages arrive in order with exact payloads; a control frame is on the wire iff its call returned nil; a WriteControl that failed returned a timeout net.Error no later than its deadline on the fake clock (exact), wrote nothing, and the writer's later calls still succeed; a WriteControl that succeeded reached the transport no later than its deadline; nobody is stuck after all writes are granted and 20 s of fake time; nothing follows a close frame and calls started after it fail. part free-running-race: the same actors as real parallel goroutines over an ungated transport that yields inside Write; oracle = race detector report file unchanged (GORACE log_path) + the same wire oracle. parts shared-prepared-message / shared-pool: one PreparedMessage, respectively one instrumented write buffer pool, shared by up to 8 connections each driven by its own goroutine under the race detector (the concurrent legs of C19 and C20). Non-trivial = a call started while another write was held in the transport, or a WriteControl timed out, or a shared-object case.",
         "assumptions": TRUST + ["schedules are explored at the granularity API call / transport write / lock acquisition, not instruction level; data-race freedom is only observed on executed schedules (race detector)", "the stepped scheduler adds happens-before edges, hence the separate free-running leg for races"],
         "level_text": "Bounded exploration of generated schedules with an owned scheduler and clock (deterministic), plus randomized real-parallel stress under the race detector. This is the weakest fit for property-based testing: 'for all schedules' is sampled.",
         "level_note": "Needs go1.26.8 (testing/synctest) and -race; both are pre-installed.",
         "technique": "property-based testing (rapid) of schedules inside testing/synctest bubbles (owned scheduler + fake clock) and race-detector stress",
-        "legs": [raceleg("^TestC11Owned$", 400, 25000), raceleg("^TestC11Free$", 300, 20000)],
+        "legs": [raceleg("^TestC11Owned$", 400, 25000), raceleg("^TestC11Free$", 300, 20000), raceleg("^TestC11SharedPrepared$", 150, 6000), raceleg("^TestC11SharedPool$", 150, 6000)],
     },
     "C19": {
         "title": "A PreparedMessage equals WriteMessage on every connection it is sent to",
